@@ -9,8 +9,8 @@
 From Coq Require Import List NArith ZArith Bool.
 Import ListNotations.
 From Base Require Import PyStr.
-From Model Require Import Wrap BlockStart Render.
-From Proofs Require Import PyStrFacts WrapProofs EscapeProofs RenderProofs.
+From Model Require Import Wrap BlockStart Render InlineRead BlockRead.
+From Proofs Require Import PyStrFacts WrapProofs EscapeProofs RenderProofs CodeSpanProofs DestProofs FenceProofs.
 
 (* 1. Nothing is dropped, invented, merged or split by wrapping: the lines are the input words in
    order; line 0 verbatim, the head of every later line passed through the escape, nothing else. *)
@@ -65,3 +65,42 @@ Theorem C01_fence_adequate : forall content fc flen line,
   (flen <= Nat.max flen (min_fence_length content fc))%nat.
 Proof. exact fence_adequate. Qed.
 Print Assumptions C01_fence_adequate.
+
+(* 7. Read-back theorems.  Model/InlineRead.v and Model/BlockRead.v state how a CommonMark reader reads
+   a code span, a link destination, a link title and a fenced code block (specification, validated
+   against the parser flowmark uses by harness/c01.py).  What the renderer writes is read back as
+   exactly what the parser had handed over. *)
+Theorem C01_code_span_read_back : forall s tail,
+  s <> [] -> needs_padding s = false -> no_bq_head tail ->
+  read_code_span (render_code_span s ++ tail) = Some (s, tail).
+Proof. exact code_span_roundtrip. Qed.
+Print Assumptions C01_code_span_read_back.
+
+Theorem C01_destination_read_back : forall d tail, dest_ok d -> tail_ok tail ->
+  read_destination (link_destination d ++ tail) = Some (d, tail).
+Proof. exact destination_roundtrip. Qed.
+Print Assumptions C01_destination_read_back.
+
+Theorem C01_title_read_back : forall t tail, read_title (normalize_title_quotes t ++ tail) = Some (t, tail).
+Proof. exact title_roundtrip. Qed.
+Print Assumptions C01_title_read_back.
+
+(* a code block outside containers: same fence character, info string and content lines, for EVERY
+   content, and the reader stops exactly at the closing fence *)
+Theorem C01_code_block_read_back : forall lang extra fc flen content st rest,
+  r_prefix st = [] -> r_prefix2 st = [] -> (fc = 96 \/ fc = 126)%N -> info_ok fc (info_of lang extra) ->
+  exists lines,
+    fst (render_code lang extra fc flen content st) = join [nlc] lines ++ [nlc] /\
+    read_fenced (lines ++ rest)
+    = Some (Fenced fc (fence_len fc flen content) (info_of lang extra) (code_lines content), rest).
+Proof. exact code_block_roundtrip. Qed.
+Print Assumptions C01_code_block_read_back.
+
+(* non-vacuity: content that holds a fence, a destination that needs its escapes back *)
+Example C01_read_back_examples :
+  read_code_span (render_code_span [96; 97]%N ++ []) = Some ([96; 97]%N, [])
+  /\ read_destination (link_destination [97; 92; 42; 98]%N ++ [41]%N) = Some ([97; 92; 42; 98]%N, [41]%N)
+  /\ read_title (normalize_title_quotes [116; 92]%N ++ [41]%N) = Some ([116; 92]%N, [41]%N)
+  /\ read_fenced (split_on nlc (fst (render_code [112; 121]%N [] 96%N 3 [96; 96; 96; 10; 120; 10]%N (RS [] [] false false [] false))))
+     = Some (Fenced 96%N 4 [112; 121]%N [[96; 96; 96]%N; [120]%N], [[]]).
+Proof. repeat split; vm_compute; reflexivity. Qed.
